@@ -35,7 +35,7 @@ def make_run_one(count, window, arrivals, victim, reduce=True):
 
     def run(chooser):
         loop = vloopx.XLoop(chooser, t0=T0)
-        loop.fifo_plumbing = True
+        loop.ext_mode = True  # FIFO ready queue + environment-completed external events / same-instant timers (see vloopx)
         lim = RateLimiter(RateLimit(count, window))
         ph = ['new'] * n
         admitted = []  # absolute admission times, in order
@@ -53,9 +53,11 @@ def make_run_one(count, window, arrivals, victim, reduce=True):
 
         async def entrant(i):
             try:
+                ph[i] = 'before'
                 if arrivals[i] > 0:
-                    ph[i] = 'before'
                     await asyncio.sleep(arrivals[i])
+                else:
+                    await vloopx.ext_yield()  # arrival at t=0 is an external event (so a cancellation can precede it)
                 ph[i] = 'waiting'
                 async with lim:
                     t = vloop.now()
@@ -89,6 +91,7 @@ def make_run_one(count, window, arrivals, victim, reduce=True):
         async def controller(v, t):
             if t > 0:
                 await asyncio.sleep(t)
+            await vloopx.ext_yield()  # lands at a moment of the environment's choosing within that instant
             tk = tasks[v]
             if tk.done():
                 kind = 'after-exit'
@@ -124,8 +127,6 @@ def make_run_one(count, window, arrivals, victim, reduce=True):
 
         loop.state_fn = state
         loop.quiescent_hook = on_quiescent
-        if reduce:
-            loop.independent = independent
         loop.run(setup(), max_steps=50)
         try:
             n_steps = loop.drain(max_steps=MAX_STEPS)
@@ -262,7 +263,7 @@ def check(tier, seed, procs):
         'schedules_executed': execs,
         'distinct_outcomes': outcomes,
         'executions_by_feature': dict(sorted(cnt.items())),
-        'deviation_bound': 'unbounded (every order of runnable task steps at every instant, state-hash pruned)',
+        'deviation_bound': 'unbounded (every order of timer/external-event completions at every instant over a FIFO ready queue, state-hash pruned)',
         'bounds': ('count 1-2, window 1 s / 2 s, 2-3 entrants arriving at 0/0.5/1/2 s, at most one entrant cancelled at 0/1/2 s' if tier == 'quick' else
                    'count 1-3, window 1 s / 2 s; 2-3 entrants arriving at 0/0.5/1/1.5/2/2.25 s with <=1 cancelled at 0/0.5/1/1.5/2/2.5/3 s; '
                    '4 entrants arriving at 0/0.5/1/1.5/2 s with <=1 cancelled at 0/1/2/3 s; 5 entrants arriving at 0/0.5/1/2 s with <=1 cancelled at 0/1/2/3 s'),
@@ -277,6 +278,10 @@ def check(tier, seed, procs):
             'every execution is the real RateLimiter on a virtual asyncio loop; time.time and the loop clock are the same virtual clock',
             'virtual time advances only when no callback is runnable (callbacks take zero time); times are multiples of 0.25 s (exact in binary)',
             'entrants with the same arrival time are interchangeable (configurations are multisets of arrival times)',
+            'only schedules real asyncio can produce: the ready queue is FIFO (a new task takes its first step in creation order, before '
+            'anything queued later); the environment decides when each external event completes (every yield of a harness body, '
+            'arrivals, the cancellation) and which of the timers due at one instant fires next, and appends that completion at the '
+            'end of the ready queue; every such order is explored',
             'no order among waiting entrants is demanded; "as soon as possible" is judged for the set of waiters',
         ],
         # a reported violation is itself evidence that the run was not vacuous (a broken implementation may skip a feature)
